@@ -534,6 +534,41 @@ func init() {
 				if v.Query() != s {
 					c.Report(Finding{Class: "violation", What: fmt.Sprintf("Query %q differs from the list's serialization %q", v.Query(), s), Case: cs2})
 				}
+				// (c) the same under skip-equals-for-empty-values: only the '=' of an empty value is omitted, names are escaped as ever;
+				// the pair ("","") serializes to nothing and is the one pair that does not come back
+				if i%2 == 0 {
+					sk := cfgFromDesc("skipEq")
+					v3, err := sk.Parser.Parse("https://h/p")
+					if err != nil {
+						return
+					}
+					sp3 := v3.SearchParams()
+					var l3, want3 []string
+					for k := 0; k < 1+r.Intn(4); k++ {
+						a, b := r.spName(), ""
+						if r.Chance(1, 3) {
+							a = r.Pick([]string{"a&b", "k=v", "1+1", "a b", "&", "=", "+", "%", "a%41", "é", "", "#", "a;b"})
+						}
+						if r.Chance(1, 3) {
+							b = r.spValue()
+						}
+						sp3.Append(a, b)
+						l3 = append(l3, a, b)
+						if a != "" || b != "" {
+							want3 = append(want3, a, b)
+						}
+					}
+					s3 := sp3.String()
+					lj3, _ := json.Marshal(hxAll(want3)) // the list that is expected back (the known-finding matcher re-derives its explanation from it)
+					cs3 := Case{Kind: "unit", Cfg: "skipEq", Input: strings.Join(l3, "\x1f"), Family: "roundtrip", Index: i, Extra: map[string]string{"serialized": s3, "list": string(lj3)}}
+					c.Count("sprt3\x00"+strings.Join(l3, "\x00"), true, "roundtrip:skipEq")
+					if back := formParse(s3); toValid(strings.Join(back, "\x00")) != toValid(strings.Join(want3, "\x00")) {
+						c.Report(Finding{Class: "violation", What: fmt.Sprintf("under skip-equals the list %q serializes to %q, which parses to %q", l3, s3, back), Case: cs3})
+					}
+					if v3.Query() != s3 {
+						c.Report(Finding{Class: "violation", What: fmt.Sprintf("under skip-equals Query %q differs from the list's serialization %q", v3.Query(), s3), Case: cs3})
+					}
+				}
 			})
 		},
 		rule: "generated histories of the eight SearchParams operations from generated start queries (names/values weighted on & = + % # space, empty, non-ASCII, invalid UTF-8) compared step by step with the model, whose sp_* functions are the list semantics; generated and mutated queries against an independent form-urlencoded parser; generated pair lists serialized and parsed back (independent parser and SetSearch)",
